@@ -273,7 +273,16 @@ func (fc *FnCtx) evalExpr(e *Expr, env *Env) Val {
 				decls = append(decls, fmt.Sprintf("(%s %s)", nm, sort))
 				continue
 			}
-			inner.bound[q.Name] = Val{T: nm, Sort: sort, Math: sort == sInt}
+			bv := Val{T: nm, Sort: sort, Math: sort == sInt}
+			switch q.Sort {
+			case "int", "bool", "slice", "iface", "arr":
+			default:
+				// a named struct type of the package: the variable ranges over references to it (`forall q Req ::`)
+				if tn, ok := fc.eng.tpkg.Scope().Lookup(q.Sort).(*types.TypeName); ok {
+					bv = Val{T: nm, Sort: sInt, Typ: types.NewPointer(tn.Type())}
+				}
+			}
+			inner.bound[q.Name] = bv
 			decls = append(decls, fmt.Sprintf("(%s %s)", nm, sort))
 		}
 		// absolute-index discipline: if a bound integer is used directly as the index of a slice that does not
